@@ -368,7 +368,7 @@ impl C06 {
 					if got.1 > 0 {
 						v.push(run.viol(
 							"cancellable",
-							"locked_after_cancelling_everything",
+							&format!("locked_after_cancelling_everything:{}", kind),
 							format!("after {} in {} at {:?}: account {} still has {} locked outputs after cancelling every pending transaction", fk, kind, step.fault, label, got.1),
 						));
 						return v;
@@ -376,7 +376,7 @@ impl C06 {
 					if got.2 > 0 {
 						v.push(run.viol(
 							"cancellable",
-							"pending_outputs_left_after_cancelling_everything",
+							&format!("pending_outputs_left_after_cancelling_everything:{}", kind),
 							format!("after {} in {} at {:?}: account {} still has {} unconfirmed outputs after cancelling every pending transaction", fk, kind, step.fault, label, got.2),
 						));
 						return v;
@@ -385,7 +385,7 @@ impl C06 {
 						if (got.0, got.3, got.4) != (w0.0, w0.3, w0.4) {
 							v.push(run.viol(
 								"funds_restored",
-								"funds_differ_from_fault_free_recovery",
+								&format!("funds_differ_from_fault_free_recovery:{}", kind),
 								format!(
 									"after {} in {} at {:?}: account {} recovers to (unspent, spendable, total) = {:?}, the fault-free run to {:?}",
 									fk, kind, step.fault, label, (got.0, got.3, got.4), (w0.0, w0.3, w0.4)
